@@ -20,6 +20,11 @@ CHECKS["C01"] = ("exploration",
     "Generated writer programs: 1-4 writer sessions (append/replace/reset, own chunk-size configuration) of interleaved store_feature/store_log/store_table/store_metadata calls with events split arbitrarily over calls, every feature kind (scalar float/int, index, image, mask, contour, trace, float32 image, user-shaped temporary feature) and every documented single-event/list/array input form; the file is compared with an in-memory model through dclab (whole/int/slice/boolean access) and through raw h5py (values, dtypes, counts). Exploration, not proof.",
     "Trusts h5py/numpy as independent reader; version shim; tables written once per name (second write raises by design); NUL characters excluded from log lines; integer features within the stored type's range.",
     "DESIGN.md §5 C01")
+CHECKS["C03"] = ("exploration",
+    "stateful operation-history generation (Hypothesis) + stateless reference specification (exact rational even-odd polygon test) + fresh-dataset differential",
+    "Generated histories (<=40 operations: set/change/delete ranges, add/modify/invert/deregister polygon filters, invalid-event removal, enable, event limit, manual exclusions, reset, apply with/without force) on datasets with NaN/inf and bounds tying with data; after every apply the box/polygon/invalid/all arrays are compared with a from-scratch evaluation of the current configuration and with a freshly configured dataset (history independence, reproducible limit). Exploration, not proof.",
+    "Events exactly on a polygon boundary or with non-finite polygon coordinates are excluded from the polygon comparison (counted); dyadic coordinates make the float test exact; lone min/max keys (documented ValueError) are not generated.",
+    "DESIGN.md §5 C03")
 NOT_APPLICABLE = {}
 
 def main():
